@@ -138,7 +138,7 @@ def _replace(kws, name, spec):
     return [(n, spec if n == name else s) for n, s in kws]
 
 
-NON_TENSORS = ["float", "none", "list", "int", "str", "numpy", "dict"]
+NON_TENSORS = ["float", "none", "list", "int", "str", "object", "dict", "bool"]
 
 
 def mutations(kws, *, evaluate=False, rich=False):
